@@ -128,9 +128,55 @@ def _transform_all(kind: str) -> Dict[str, str]:
                 out[rel] = _ast.unparse(tree) + "\n"
             elif kind == "rename-locals":
                 out[rel] = _rename_locals(src)
+            elif kind in ("invert-if-else", "return-temp", "swap-compare"):
+                out[rel] = _rewrite(src, kind)
             else:
                 raise ValueError(kind)
     return out
+
+
+def _rewrite(src: str, kind: str) -> str:
+    """Mechanical behaviour-preserving rewrites applied everywhere in a module."""
+    import ast as _ast
+
+    tree = _ast.parse(src)
+
+    class T(_ast.NodeTransformer):
+        def visit_If(self, n):
+            self.generic_visit(n)
+            if kind == "invert-if-else" and n.orelse and not (len(n.orelse) == 1 and isinstance(n.orelse[0], _ast.If)):
+                return _ast.If(test=_ast.UnaryOp(op=_ast.Not(), operand=n.test), body=n.orelse, orelse=n.body)
+            return n
+
+        def visit_Compare(self, n):
+            self.generic_visit(n)
+            flip = {_ast.Lt: _ast.Gt, _ast.Gt: _ast.Lt, _ast.LtE: _ast.GtE, _ast.GtE: _ast.LtE}
+            if kind == "swap-compare" and len(n.ops) == 1 and type(n.ops[0]) in flip:
+                # only numbers are compared with < <= > >= in the package, except TermList / contract `<=`, which
+                # Python reflects to the same __le__ call when written the other way round
+                return _ast.Compare(left=n.comparators[0], ops=[flip[type(n.ops[0])]()], comparators=[n.left])
+            return n
+
+        def visit_FunctionDef(self, n):
+            self.generic_visit(n)
+            if kind == "return-temp":
+                class R(_ast.NodeTransformer):
+                    def visit_FunctionDef(self, m):
+                        return m
+
+                    def visit_Lambda(self, m):
+                        return m
+
+                    def visit_Return(self, r):
+                        if r.value is None or isinstance(r.value, (_ast.Name, _ast.Constant)):
+                            return r
+                        return [_ast.Assign(targets=[_ast.Name(id="_result_tmp", ctx=_ast.Store())], value=r.value), _ast.Return(value=_ast.Name(id="_result_tmp", ctx=_ast.Load()))]
+
+                n.body = [x for st in n.body for x in (lambda v: v if isinstance(v, list) else [v])(R().visit(st))]
+            return n
+
+    tree = _ast.fix_missing_locations(T().visit(tree))
+    return _ast.unparse(tree) + "\n"
 
 
 def _rename_locals(src: str) -> str:
